@@ -236,6 +236,14 @@ SEARCH_FIELDS = {
     "BFGS": [],
     "LBFGS": [],
     "Drawer": [("total_draws", "int")],
+    # classes whose samplers are not installed here: constructing, describing and (de)serialising them works
+    "Zeus": [("nwalkers", "int"), ("tune", "bool"), ("tolerance", "float"), ("patience", "int"), ("mu", "float"), ("light_mode", "bool")],
+    "Nautilus": [("n_live", "int"), ("n_update", "optint"), ("enlarge_per_dim", "float"), ("n_points_min", "optint"),
+                 ("split_threshold", "int"), ("n_networks", "int"), ("n_like_new_bound", "optint"), ("seed", "optint"),
+                 ("n_shell", "int"), ("n_eff", "int")],
+    "UltraNest": [("draw_multiple", "bool"), ("ndraw_min", "int"), ("ndraw_max", "int"), ("min_num_live_points", "int"),
+                  ("cluster_num_live_points", "int"), ("insertion_test_zscore_threshold", "float"), ("stepsampler_cls", "optstr"),
+                  ("nsteps", "optint")],
 }
 # variable names of arithmetic operands.  `left` / `right` are properties of CompoundPrior: a left operand held in a
 # variable called `right` (or a right operand called `left`) is routed through the property setter and silently
@@ -449,7 +457,8 @@ class Gen:
 
     def search(self):
         rng = self.rng
-        names = ["Emcee", "DynestyStatic", "DynestyDynamic", "PySwarmsGlobal", "PySwarmsLocal", "BFGS", "LBFGS"]
+        names = ["Emcee", "DynestyStatic", "DynestyDynamic", "PySwarmsGlobal", "PySwarmsLocal", "BFGS", "LBFGS",
+                 "Zeus", "Nautilus", "UltraNest"]
         cls = "Drawer" if "drawer" in self.allow and rng.random() < 0.6 else rng.choice(names)
         st = {}
         for f, kind in SEARCH_FIELDS[cls]:
@@ -471,6 +480,10 @@ class Gen:
             return rng.choice([0.1, 0.5, 0.9, 1.5, round(rng.uniform(0, 2), rng.randint(1, 6))])
         if kind == "str":
             return rng.choice(["multi", "auto", "rwalk", "balls", "single", "unif", "rslice"])
+        if kind == "bool":
+            return rng.random() < 0.5
+        if kind == "optstr":
+            return rng.choice([None, "RegionMCMCSampler", "RegionSliceSampler"])
         if kind == "optint":
             return rng.choice([None, None, 1, 5, rng.randint(1, 30)])
         if kind == "optfloat":
